@@ -198,7 +198,7 @@ def copied_matchers(ctx, label='pickled / copied matchers answer like the origin
     n = bad = 0
     spec = [('real', 'd', None), ('real/f.txt', 'f', None), ('real/sub', 'd', None), ('real/sub/g.txt', 'f', None), ('link', 'l', 'real'), ('top.txt', 'f', None)]
     with trees.Tree(spec) as T:
-        cands = T.entries_follow(4)
+        cands = T.entries_follow(4) + ['nowhere/x.txt', 'a/b/c.txt', 'ghost.txt']
         G, L, P = Gm.GLOBSTAR, Gm.FOLLOW, Gm.REALPATH
         for pat, fl, kw in (('**/*.txt', G | L | P, {}), ('**/*.txt', G | P, {}), ('***/*.txt', Gm.GLOBSTARLONG | P, {}), ('**', G | L | P | Gm.NODIR, {'exclude': '**/g*'}), ('*.txt', G | P | Gm.MATCHBASE | L, {}),
                             ('**/*.txt', G, {}), (['**/f*', '!**/sub/**'], G | L | P | Gm.NEGATE, {})):
